@@ -279,6 +279,7 @@ def build_seed(name, seed, inner_mut=None, outer_mut=None):
 
 
 SEEDS = ("rawblock", "plainblock", "pe-x86", "pe-x64", "xor-x86", "guardrails", "guardrails-early", "artifact", "http-request", "http-response")
+GUARD_WINDOW = list(range(6120, 6150)) + [0, 1, 5, 6, 100, 3000, 6000]
 
 
 def alternatives(orig: bytes, endian):
@@ -346,6 +347,8 @@ def plan(tier, seed):
             for p in range(16):
                 ch.append({"key": f"dev2/{s}/{p}", "kind": "dev", "seedname": s, "k": 2, "part": p, "parts": 16, "cost": 8000})
     ch.append({"key": "splice", "kind": "splice", "cost": 1500})
+    for part in range(4):
+        ch.append({"key": f"guard-marker-window/{part}", "kind": "guard_window", "part": part, "cost": 1500})
     for hi in range(0, 256, 16):
         ch.append({"key": f"short/bytes/{hi:02x}", "kind": "short_bytes", "hi": hi, "cost": 1200})
     ch.append({"key": "short/alpha", "kind": "short_alpha", "cost": 2500})
@@ -416,6 +419,23 @@ def chunk_splice(chunk, acc):
     acc.sample({"splices": "first quarter/half of one seed + remainder of another", "pairs": 30})
 
 
+def chunk_guard_window(chunk, acc):
+    """A guard marker (last 6 bytes of a masked configuration + first 6 of the masked guard area) placed so that the
+    marker starts at every offset around 6138 - the first offset at which a configuration fits in front of it."""
+    cfg = tlv.encode([(1, 1, b"\x00\x00")])
+    area, cb, g = G.protect(cfg, b"\x07\x01\x09", [(G.G_USER, b"\x00\x01")])
+    tail = area[G.CONFIG_SIZE - 6 :]  # 6 marker bytes of the configuration + the whole guard area
+    for i, off in enumerate(GUARD_WINDOW):
+        if i % 4 != chunk["part"]:
+            continue
+        for fill in ("lcg", "area"):
+            pre = bytes(lcg(off, acc.seed + off)) if fill == "lcg" else area[max(0, G.CONFIG_SIZE - 6 - off) : G.CONFIG_SIZE - 6][-off:] if off else b""
+            data = pre.rjust(off, b"\x55")[:off] + tail
+            acc.states += 1
+            run_input(acc, [ep_from_bytes, ep_from_path, ep_from_file], data, {"kind": "guard_window", "offset": off, "fill": fill, "seed": acc.seed}, (off, fill))
+    acc.sample({"guard_marker_offsets": "6120..6149 and a few small ones", "entry_points": ["from_bytes", "from_path", "from_file"]})
+
+
 def chunk_short_bytes(chunk, acc):
     eps_all = [ep_from_bytes, ep_block, ep_xor_from_file, ep_artifact, ep_http]
     for a in range(chunk["hi"], chunk["hi"] + 16):
@@ -473,6 +493,14 @@ def replay(case):
     elif case["kind"] == "trunc":
         data, fin, fout, win, eps = build_seed(case["seedname"], case["seed"])
         data = data[: case["cut"]]
+    elif case["kind"] == "guard_window":
+        cfg = tlv.encode([(1, 1, b"\x00\x00")])
+        area, cb, g = G.protect(cfg, b"\x07\x01\x09", [(G.G_USER, b"\x00\x01")])
+        tail = area[G.CONFIG_SIZE - 6 :]
+        off = case["offset"]
+        pre = bytes(lcg(off, case["seed"] + off)) if case["fill"] == "lcg" else area[max(0, G.CONFIG_SIZE - 6 - off) : G.CONFIG_SIZE - 6][-off:] if off else b""
+        data = pre.rjust(off, b"\x55")[:off] + tail
+        eps = [ep_from_bytes, ep_from_path, ep_from_file]
     elif case["kind"] == "splice":
         da = build_seed(case["a"], case["seed"])[0]
         db = build_seed(case["b"], case["seed"])[0]
